@@ -405,7 +405,8 @@ func build(tier string) []*vexp.Scenario {
 				} else {
 					q = base
 					q.respawn = "outsider-actorof"
-					add(q)
+					// the re-spawn landing between the old actor's termination and its parent's bookkeeping needs two deviations (fix acbb5fd)
+					out = append(out, scenario(q, []int{0, 1, 2}))
 				}
 			}
 		}
